@@ -518,10 +518,11 @@ func c12LockLabels(ths []c12LockThread) []string {
 }
 
 // c12LockWitness: the shrunk schedule of the release/delete window.
-//   T1 (reader) locks, leaves its critical section, unlock: Release()==0, parks before m.Delete
-//   T2 (reader) locks: finds the shared entry, count 1 - holds the key
-//   T1 deletes the map entry
-//   T0 (writer) locks: no entry -> succeeds while T2 still holds the key shared
+//
+//	T1 (reader) locks, leaves its critical section, unlock: Release()==0, parks before m.Delete
+//	T2 (reader) locks: finds the shared entry, count 1 - holds the key
+//	T1 deletes the map entry
+//	T0 (writer) locks: no entry -> succeeds while T2 still holds the key shared
 func c12LockWitness() (c12LockTrace, error) {
 	tr := c12LockTrace{Threads: []c12LockThread{
 		{Keys: []c12LK{{K: "k0", X: true}}, Rounds: 1},
@@ -906,13 +907,43 @@ func c12Concurrent(nm *hx.NodeMachine, reqs []c12Req, pick c12Picker) c12Outcome
 			post.Apply(t, "")
 			pending[string(t.Txid)] = true
 		}
+		// A transaction of A that is neither pending nor in the block was admitted and then evicted
+		// by the play (serial order "DoTx, then play"). The play evicts what conflicts with the block
+		// and, transitively, what the pool's dependency graph orders after an evicted transaction
+		// (spends its output, consumes or overwrites a key version it wrote / read). Anything else
+		// is a lost admission.
+		var all []*pb.Transaction
+		inAll := map[string]bool{}
+		for _, t := range append(append([]*pb.Transaction{}, oldPool...), A...) {
+			if !inAll[string(t.Txid)] {
+				inAll[string(t.Txid)] = true
+				all = append(all, t)
+			}
+		}
+		nm.Pool = all
+		pairs, _ := nm.MustPrecede()
+		legit := map[string]bool{}
+		evicted := func(t *pb.Transaction) bool { return !pending[string(t.Txid)] && !inBlock[string(t.Txid)] }
+		for _, t := range all {
+			if evicted(t) && post.Check(t, h) != nil {
+				legit[string(t.Txid)] = true
+			}
+		}
+		for changed := true; changed; {
+			changed = false
+			for _, p := range pairs {
+				if evicted(p[0]) && legit[string(p[0].Txid)] && evicted(p[1]) && !legit[string(p[1].Txid)] {
+					legit[string(p[1].Txid)] = true
+					changed = true
+				}
+			}
+		}
 		for _, t := range A {
-			id := string(t.Txid)
-			if pending[id] || inBlock[id] {
+			if !evicted(t) {
 				continue
 			}
-			if post.Check(t, h) == nil {
-				return fail("admitted transaction %s is neither pending nor in the played block although it does not conflict with either (lost admission): %s", hx.Hex8(t.Txid), hx.DescribeTx(t))
+			if !legit[string(t.Txid)] {
+				return fail("admitted transaction %s is neither pending nor in the played block although it neither conflicts with the block nor depends on an evicted transaction (lost admission): %s", hx.Hex8(t.Txid), hx.DescribeTx(t))
 			}
 			out.label("admitted-then-evicted-by-play")
 		}
@@ -1384,13 +1415,14 @@ func c12PrefixCfg() genCfg {
 // c12StateWitness: the double admission that the release/delete window allows at the state level.
 // Requests (all assembled against the same state): R1, R2 read key a (shared lock), W1, W2
 // overwrite it (exclusive lock).
-//   R1 runs until its unlock has taken the shared count to 0 and parks before m.Delete
-//   R2 locks (joins the shared entry) and parks inside its critical section
-//   R1 deletes the map entry and finishes
-//   W1 locks (no entry -> exclusive), parks before its batch write (version check done)
-//   R2 finishes: its unlock takes the count to 0 and deletes W1's exclusive entry
-//   W2 locks (no entry -> exclusive), parks before its batch write (version check done: W1 has not written yet)
-//   W1, W2 finish: both supersede the same version of a
+//
+//	R1 runs until its unlock has taken the shared count to 0 and parks before m.Delete
+//	R2 locks (joins the shared entry) and parks inside its critical section
+//	R1 deletes the map entry and finishes
+//	W1 locks (no entry -> exclusive), parks before its batch write (version check done)
+//	R2 finishes: its unlock takes the count to 0 and deletes W1's exclusive entry
+//	W2 locks (no entry -> exclusive), parks before its batch write (version check done: W1 has not written yet)
+//	W1, W2 finish: both supersede the same version of a
 func c12StateWitness(fs *hx.FindingSet) (c12StateTrace, error) {
 	tr := c12StateTrace{}
 	nm, err := hx.NewNodeMachine(hx.DefaultOpts(), fs)
@@ -1542,6 +1574,9 @@ func TestC12(t *testing.T) {
 		} else if err2 != nil {
 			err = fmt.Errorf("%v; AND at the state level: %v", err, err2)
 		}
+		if err != nil {
+			t.Logf("witness %s: %v", c12FindingWindow, err)
+		}
 		if witnessVerdict(t, c, fs, c12FindingWindow, err, w) && !noExclude {
 			c12Exclude[c12FindingWindow] = true
 		}
@@ -1551,35 +1586,41 @@ func TestC12(t *testing.T) {
 		return
 	}
 
-	c.Check(t, "spinlock-schedules", hx.N(20000, 400000), func(cs *hx.Case) {
-		rt := cs.RT()
-		ths := c12GenLockScenario(cs)
-		cs.Op(c12LockTrace{Threads: ths})
-		pick, mode := c12RapidPicker(rt, len(ths), 30)
-		out := c12LockExec(ths, pick)
-		cs.Op(c12LockTrace{Sched: c12SchedOf(out.Steps)})
-		if out.Wedged {
-			t.Fatalf("harness wedged (inconclusive): %s", hx.FormatSteps(out.Steps))
-		}
-		if out.OverBudget && out.Err == nil {
-			cs.Label("step-budget")
-			return
-		}
-		if out.Err != nil {
-			cs.Failf("%v", out.Err)
-		}
-		cs.Label(mode)
-		for _, l := range c12LockLabels(ths) {
-			cs.Label(l)
-		}
-		for _, l := range out.Labels {
-			cs.Label(l)
-		}
-		if out.NT {
-			cs.Nontrivial()
-		}
-	})
+	part := os.Getenv("C12_PART") // development aid: "A" or "B" runs one part only
+	if part == "" || part == "A" {
+		c.Check(t, "spinlock-schedules", hx.N(20000, 400000), func(cs *hx.Case) {
+			rt := cs.RT()
+			ths := c12GenLockScenario(cs)
+			cs.Op(c12LockTrace{Threads: ths})
+			pick, mode := c12RapidPicker(rt, len(ths), 30)
+			out := c12LockExec(ths, pick)
+			cs.Op(c12LockTrace{Sched: c12SchedOf(out.Steps)})
+			if out.Wedged {
+				t.Fatalf("harness wedged (inconclusive): %s", hx.FormatSteps(out.Steps))
+			}
+			if out.OverBudget && out.Err == nil {
+				cs.Label("step-budget")
+				return
+			}
+			if out.Err != nil {
+				cs.Failf("%v", out.Err)
+			}
+			cs.Label(mode)
+			for _, l := range c12LockLabels(ths) {
+				cs.Label(l)
+			}
+			for _, l := range out.Labels {
+				cs.Label(l)
+			}
+			if out.NT {
+				cs.Nontrivial()
+			}
+		})
 
+	}
+	if t.Failed() || part == "A" {
+		return
+	}
 	cfg := c12PrefixCfg()
 	c.Check(t, "state-schedules", hx.N(500, 12000), func(cs *hx.Case) {
 		rt := cs.RT()
